@@ -760,7 +760,12 @@ class LazyUnique:
 
 def f_unique(a, return_index=False, return_inverse=False, return_counts=False, axis=None, **k):
     if axis is not None: raise Unsupported('unique axis')
-    a = to_obj(a).reshape(-1); dk = kind_of(a)
+    a = to_obj(a).reshape(-1)
+    if a.size and any(isinstance(v, complex) for v in a):          # concrete complex keys (partition_distance's joint labels)
+        r = np.unique(np.array([complex(v) for v in a]), return_index=return_index, return_inverse=return_inverse, return_counts=return_counts)
+        if isinstance(r, tuple): return (r[0],) + tuple(S(x) for x in r[1:])
+        return r
+    dk = kind_of(a)
     if not any_sym(a):
         if any(isinstance(v, Fraction) for v in a): arr_ = np.array([float(v) for v in a])
         elif dk == 'b': arr_ = np.array([bool(v) for v in a])
